@@ -90,9 +90,73 @@ class Main(object):
 
 def run_tape(tape):
     with seams.deterministic(tape) as clock:
-        if tape.draw(10) == 9:
+        mode = tape.draw(10)
+        if mode == 9:
             return straggler_history(tape, clock)
+        if mode == 8:
+            return straggler_in_replay(tape, clock)
         return _run(tape, clock)
+
+
+def straggler_in_replay(tape, clock):
+    """History: a replay whose operation leaves a fire-and-forget worker behind that is still inside an output interception
+    when play() returns (pre-empted at a tape-chosen line point, continuing afterwards).  The next replay on the recorder
+    captures exactly what a fresh recorder captures."""
+    import os
+    from simkit import REPO
+    from simkit.sim import Sim, SimDeadlock
+    run = Run(PROP)
+    run.probe('replay_history_with_a_straggler_thread')
+    k = tape.draw(200)
+    cas = InMemoryTapeCassette()
+
+    def make(name, body):
+        sp = R.ServiceSpec()
+        sp.op.name = name
+        sp.outputs = [R.OutputSpec(0)]
+        sp.body = body
+        return sp
+    late = [['out', 0, ((1,), {}), ('value', 2), None]] * (1 + tape.draw(2))
+    first = make('OpA', [['spawn', [late], True]])
+    probe = make('OpB', [['out', 0, ((5,), {}), ('value', 6), None], ['out', 0, ((7,), {}), ('value', 8), None]])
+    # recordings made beforehand, with the worker joined (so that its outputs are part of the first recording)
+    first_joined = make('OpA', [['spawn', [late], False]])
+    ra = R.record_once(first_joined, run, cas, rseed=1)
+    rb = R.record_once(probe, run, cas, rseed=1)
+    if not (ra.saved and rb.saved):
+        run.violate('probe_equals_fresh_recorder', 'setup-not-saved', 'setup recordings were not saved')
+        return run
+    sim = Sim(tape, run, preempt_p=0.0, prim_p=0.0, placements={k: 0}, eager_start=True,
+              target_files=[os.path.join(REPO, 'playback', 'tape_recorder.py')], max_steps=60000)
+    recorder = TapeRecorder(cas)
+    res = {}
+
+    def main():
+        a = R.replay_once(first, run, cas, ra.rec_id, recorder=recorder, thread_factory=R.sim_thread_factory(sim), join_threads=False)
+        for name, th, tobs, strag in a.svc.threads:
+            th.join()
+        res['idle'] = (recorder.in_recording_mode, recorder.in_playback_mode)
+        res['probe'] = R.replay_once(probe, run, cas, rb.rec_id, recorder=recorder)
+    try:
+        sim.run_main(main)
+    except SimDeadlock as ex:
+        run.violate('idle_after_run', 'deadlock', str(ex))
+        return run
+    run.nontrivial = sim.switches > 1
+    run.check(res.get('idle') == (False, False), 'idle_after_run', 'not-idle-after-straggler', lambda: 'recorder state after the straggler finished: %s' % (res.get('idle'),))
+    fresh = R.replay_once(probe, run, cas, rb.rec_id, recorder=TapeRecorder(cas))
+
+    def captured(rep):
+        if rep.outcome.kind != 'return':
+            return ('play raised', type(rep.outcome.exc).__name__)
+        return sorted((o.key, V.canon(o.value)) for o in rep.playback.playback_outputs)
+    got, exp = captured(res['probe']), captured(fresh)
+    run.say('replay straggler pre-empted at line point %d; next replay captured %s' % (k, [x[0] for x in got] if isinstance(got, list) else got))
+    run.ev('replay_straggler', k, [x[0] for x in got] if isinstance(got, list) else got, sim.switches)
+    run.check(got == exp, 'probe_equals_fresh_recorder', 'replay-content-after-straggler',
+              lambda: 'after a replay that left a worker thread inside an output interception, the next replay captured %s; a fresh recorder captures %s' % (
+                  [x[0] for x in got] if isinstance(got, list) else got, [x[0] for x in exp] if isinstance(exp, list) else exp))
+    return run
 
 
 def straggler_history(tape, clock):
